@@ -36,7 +36,12 @@ Written(op, p) == IF op.name = "add" THEN p.y ELSE p.x
 
 Clause(r) ==
   LET w == Want(r)  post == Obs(r.post) IN
-  IF IsEntry(r.op) /\ w.exc = "TypeError" /\ r.exc = "none" THEN "unacceptable_element_not_rejected"
+  IF r.op.tgt = "x" /\ r.op.name = "radd"
+  THEN (IF r.exc = "none" THEN (IF AllGood(r.op.it) /\ post.y = r.op.it \o r.pre.x /\ post.x = r.pre.x THEN "ok"
+                                ELSE IF ~AllGood(r.op.it) THEN "unacceptable_element_not_rejected"
+                                ELSE "elements_lost_added_or_reordered")
+        ELSE IF r.exc = "TypeError" THEN "ok" ELSE "rejected_with_wrong_exception")
+  ELSE IF IsEntry(r.op) /\ w.exc = "TypeError" /\ r.exc = "none" THEN "unacceptable_element_not_rejected"
   ELSE IF IsEntry(r.op) /\ w.exc = "TypeError" /\ r.exc # "TypeError" THEN "rejected_with_wrong_exception"
   ELSE IF IsEntry(r.op) /\ w.exc = "none" /\ r.exc = "TypeError" THEN "acceptable_elements_rejected"
   ELSE IF IsEntry(r.op) /\ w.exc = "none" /\ r.exc = "none" /\ Written(r.op, post) # Written(r.op, w.st)
@@ -48,6 +53,7 @@ Clause(r) ==
 DriftClause(r) ==
   LET w == Want(r)  post == Obs(r.post) IN
   IF Clause(r) # "ok" THEN "ok"
+  ELSE IF r.op.name = "radd" /\ r.exc = "none" THEN "reflected_addition_exists"
   ELSE IF r.exc # w.exc THEN "other_exception_than_the_model"
   ELSE IF r.exc # "none" /\ post # Obs(r.pre) /\ r.op.name # "new" THEN "refused_call_changed_a_list"
   ELSE IF post.hasY # w.st.hasY \/ post.hasZ # w.st.hasZ THEN "result_object_missing"
